@@ -14,6 +14,8 @@ import re
 import shutil
 import tempfile
 
+import oracle
+
 VERIF = os.path.dirname(os.path.dirname(os.path.abspath(__file__)))
 REPO = os.environ.get("VERIF_REPO", "/repo")
 HARNESS_DIR = os.path.join(VERIF, "harness")
@@ -86,6 +88,8 @@ class Stage:
                 fh.write(body)
                 fh.write("\n")
                 fh.write(self.generated.get(mod, ""))
+                fh.write("\n")
+                fh.write(oracle.text_for(mod))
             with open(src, "a") as fh:
                 fh.write('\n#[cfg(kani)]\n#[path = "%s"]\nmod verif;\n' % staged)
             self.modules.append(mod)
